@@ -62,6 +62,21 @@ STATS = {}
 
 
 def run(tier, replay):
+    if replay:
+        import json
+        from pool import Pool
+        from report import Reporter
+        d = json.load(open(replay))
+        if d.get("family") == "length-value":
+            # a pair of the length-value stage: both texts again
+            pool = Pool()
+            rep = Reporter("C14", tier, "model_checking")
+            x, y = pool.map([{"op": "run", "text": d["text_const"], "budget": 100000}, {"op": "run", "text": d["text_literal"], "budget": 100000}], timeout=60)
+            print("replay: with the constant", _class(x), "with its value", _class(y))
+            if _class(x) != _class(y):
+                rep.violation(d, {"length-value"}, name="length-value")
+            return rep.finish({"evaluations": 1, "distinct_nontrivial": 1, "rule": "replay of one length-value pair", "samples": [],
+                               "states": 0, "transitions": 0, "traces_validated_against_impl": 1}, [])
     return run_property(
         "C14", c14.cases, tier, replay,
         rule="all constant expressions of depth 1 over 14 numeric literals (boundary values, all five types) x 13 binary "
